@@ -203,6 +203,39 @@ def tagger_sibling_case(args):
             "rc": last["rc"] if last else None, "stderr": (last["stderr"][-200:] if last else ""), "yield": None, "wall": last["wall"] if last else 0}
 
 
+def long_queue_case(args):
+    """several hundred tasks of one process started and not yet forwarded (the oldest one is slow, the stream is several times
+    the channel buffer): every item the process emits reaches the downstream process, exactly once"""
+    seed, i = args
+    rng = random.Random(seed * 100069 + i)
+    N = rng.choice([600, 640, 700])
+    sp = t3.Spec(maxtasks=8, bufsize=128)
+    vals = ["v%03d" % j for j in range(N)]
+    mk = sp.proc(t3.RawProc("mk", "[ {p:q} = v000 ] && sleep 4 ; echo {p:q} > {o:o}", ins=[], pars=[("q", ("V", vals))], outs=[("o", "mk/{p:q}.txt")]))
+    sp.proc(t3.RawProc("cp", "cat {i:a} > {o:o}", ins=[("a", [(mk, "o")])], outs=[("o", "cp/{i:a|basename}")]))
+    sc = t3.Scratch()
+    try:
+        sc.plant(sp.files)
+        impl = t3.run_impl(sc, sp, timeout=300, hooks_on=False)
+        problems = []
+        if impl["timed_out"]:
+            problems.append(("hang", "%d tasks behind a slow oldest one: the run does not terminate" % N))
+        elif impl["rc"] != 0 or not impl["returned"]:
+            problems.append(("unexpected-failure", "exit %s: %s" % (impl["rc"], impl["stderr"][-200:])))
+        else:
+            files = t3.data_files(impl["fs"])
+            lost = [v for v in vals if files.get("mk/%s.txt" % v) == v + "\n" and files.get("cp/%s.txt" % v) != v + "\n"]
+            nomk = [v for v in vals if files.get("mk/%s.txt" % v) != v + "\n"]
+            if nomk:
+                problems.append(("input-set-lost", "%d parameter values: no (complete) output of mk for %s" % (N, nomk[:3])))
+            if lost:
+                problems.append(("item-lost", "%d tasks of one process in flight behind a slow oldest one: %d of the files it produced never reached the downstream process (no task ran for them): %s" % (N, len(lost), lost[:3])))
+        return {"spec": sp.text()[:3000], "bufsize": sp.bufsize, "problems": problems, "ntasks": 2 * N, "rc": impl["rc"], "stderr": impl["stderr"][-300:],
+                "yield": None, "wall": impl["wall"]}
+    finally:
+        sc.close()
+
+
 def run(rep, tier, seed):
     proved = vlib.prove(rep, MODULE, THEOREMS)
     ok, msg = vlib.build_ocaml()
@@ -212,6 +245,7 @@ def run(rep, tier, seed):
     results = t3.run_many(case, [(seed, i) for i in range(n)])
     results += t3.run_many(resumed_case, [(seed, i) for i in range(n // 12)])
     results += t3.run_many(empty_param_case, [(seed, i) for i in range(n // 12)])
+    results += t3.run_many(long_queue_case, [(seed, i) for i in range(1 if tier == "quick" else 4)], workers=1)
     results += t3.run_many(ks.ks_case, [(seed, i, ("determinism",)) for i in range(n // 10)])
     kf = vlib.known_findings("C04")
     nd24 = 0
